@@ -45,7 +45,8 @@ WORDS = ("the a this that model value result table figure section note reader sy
          "last next simple linear small large slow fast often never always shows holds gives takes makes follows "
          "from with over under into after before between during without robot sensor wheel motor speed angle "
          "distance time step loop state input output error true false not and or is in if then else while for "
-         "each every all none one two three many few more less most least new old same other").split()
+         "each every all none one two three many few more less most least new old same other "
+         "caf\u00e9 na\u00efve \u00fcber r\u00e9sum\u00e9").split()
 NAMES = ["x", "y", "z", "w", "k", "p", "q", "r", "s", "t", "u", "v", "width", "height", "total", "count",
          "rate", "gain", "speed", "offset", "limit", "scale", "ratio", "mass"]
 FENCE_NAMES = ["alpha", "beta", "gamma"]
@@ -302,7 +303,7 @@ def make_doc(rng, stream, size):
         else:
             doc.append(dict(kind="code", pk="comment", name="", items=[dict(cmt="-- " + sentence(rng, 2, 6))]))
     for e in code_els:
-        for _ in range(rng.choice([0, 1, 1, 2, 3])):
+        for _ in range(rng.choice([0, 1, 1, 2])):
             add_prose()
         doc.append(e)
     for _ in range(rng.choice([0, 0, 1, 2])):
@@ -486,11 +487,11 @@ def fixed_docs():
 def generate(tier, rng):
     for c in fixed_docs():
         yield c
-    n = 1100 if tier == "quick" else 8000
+    n = 900 if tier == "quick" else 8000
     for i in range(n):
         r = i % 10
         stream = "plain" if r < 6 else ("codelike" if r < 8 else "layout")
-        size = rng.choice([3, 5, 8]) if tier == "quick" else rng.choice([3, 5, 8, 14])
+        size = rng.choice([3, 5, 7]) if tier == "quick" else rng.choice([3, 5, 8, 14])
         doc = make_doc(rng, stream, size)
         yield build_case(doc, stream)
 
